@@ -379,6 +379,24 @@ func (h *hx) call(c *ast.CallExpr) []string {
 			return []string{"BUF"} // Next, Bytes, AvailableBuffer, anything new
 		}
 		full := exprStr(sel.X) + "." + sel.Sel.Name
+		// a function of another package that is given no buffer and returns only scalars / error values (errors.Join,
+		// fmt.Sprint, strconv...): nothing it returns can share memory with the message or the buffer
+		if id, isId := sel.X.(*ast.Ident); isId {
+			if _, isPkg := h.info.ObjectOf(id).(*gotypes.PkgName); isPkg && refFree(h.typeOf(c)) {
+				bufArg := false
+				for _, a := range c.Args {
+					if t := h.typeOf(a); t != nil && isBufferType(t) {
+						bufArg = true
+					}
+				}
+				if !bufArg && !extCopying[full] && full != "bytes.NewBuffer" && !strings.HasPrefix(full, "unsafe.") && !strings.HasPrefix(full, "reflect.") {
+					for _, a := range c.Args {
+						h.refs(a)
+					}
+					return nil
+				}
+			}
+		}
 		if recvT != nil && strings.Contains(recvT.String(), "sync.") {
 			return nil // mutex operations move no data
 		}
